@@ -31,7 +31,7 @@ REQUIRED = ["histories", "rounds:redraw", "rounds:continue", "append_checked", "
             "p_decreased", "proved_carried_over"]
 ASSUMPTIONS = ["polling is only generated without style (the library gives it the whole sample); without style the sample "
                "is the first n cards in sample-number order, so the append clause is well-defined there too"]
-N_CASES = {"quick": 2400, "thorough": 60000}
+N_CASES = {"quick": 8000, "thorough": 64000}
 
 
 def plan(tier, seed):
